@@ -11,4 +11,6 @@ extern long verif_gk2;
 extern long verif_w;
 extern long verif_w2;
 extern int  verif_flag;
+extern int  verif_depths[8];
+extern int  verif_calls;
 #endif
